@@ -20,4 +20,29 @@ PROPS = {
              "thorough": {"range_offset_len_ge_2": 1000, "synthetic_class_file": 1000}},
         assumptions=[DOMAIN, ALIGN, "noise lines come from a fixed catalogue that C05 independently shows to be parse errors"],
     ),
+    "C02": dict(
+        level="exploration",
+        stages={"quick": [dict(variant="native", cases=6000)],
+                "thorough": [dict(variant="native", cases=120000), dict(variant="asan", cases=6000), dict(variant="miri", cases=48, shards=16, timeout=3000)]},
+        rule="case = (mapping file from AST generator / token mutator / corpus window or whole corpus file, query) with the mapper's answer compared to the cache's (write -> parse -> query) for remap_class, remap_method, remap_frame by line and by params, remap_throwable, text and typed stack traces, signatures; plus mapper with vs without param index; distinct = distinct (file hash, query); non-trivial = the mapper's answer is non-empty / differs from the input",
+        min={"quick": {"nonempty_by_params": 1000, "files_with_ge2_classes_having_methods": 100, "nonempty_by_line": 10000, "text_traces_rewritten": 100},
+             "thorough": {"nonempty_by_params": 10000}},
+        assumptions=[DOMAIN + "; files outside the domain (empty class/method/file names, numbers >= 2^32-1) are counted and skipped", ALIGN],
+    ),
+    "C03": dict(
+        level="exploration",
+        stages=native(3000, 60000),
+        rule="case = (generated mapping AST with inline groups / repeated entries / overloads, printing variant, class, method, parameter string) checked against M.frames_by_params for mapper+param-index and cache; distinct = distinct (variant text hash, query); non-trivial = model answer non-empty",
+        min={"quick": {"params_from_non_first_class": 1000, "inline_filtered": 100, "dedup_hit": 100},
+             "thorough": {"params_from_non_first_class": 10000}},
+        assumptions=[DOMAIN, ALIGN],
+    ),
+    "C04": dict(
+        level="exploration",
+        stages=native(1200, 20000),
+        rule="case = (mapping with 50..400 adversarially similar class names, probe string) for remap_class/remap_throwable and (class, method) for remap_method, each compared with model M, plus consistency of remap_method with every frame of remap_frame over 9 lines; distinct = distinct (file hash, probe) ; non-trivial = the model answers Some",
+        min={"quick": {"lookups_some": 1000, "lookups_none": 1000, "method_lookups_ambiguous_none": 100, "consistency_checks": 1000, "files_with_duplicate_class_names": 10},
+             "thorough": {}},
+        assumptions=[DOMAIN, ALIGN],
+    ),
 }
